@@ -507,7 +507,11 @@ def fr_list(v):
 
 
 def queries(t):
+    from fractions import Fraction
     q = []
+    # sums are compared only when they are exact in binary64 (after norm the values are not dyadic, and CSR and
+    # CSC add them in different orders: rounding, not representation dependence)
+    exact = all(Fraction(float(x)).denominator <= 2 ** 20 for x in t.matrix_data.data)
     obs = [str(x) for x in t.ids(axis="observation")]
     samp = [str(x) for x in t.ids()]
     q.append(("shape", json.dumps([int(x) for x in t.shape])))
@@ -520,14 +524,16 @@ def queries(t):
             q.append(("md:%s:%s" % (ax, i), json.dumps(core.canon_md_entry(t.metadata(i, axis=ax)), sort_keys=True)))
             q.append(("index:%s:%s" % (ax, i), str(int(t.index(i, ax)))))
             q.append(("exists:%s:%s" % (ax, i), str(bool(t.exists(i, axis=ax)))))
-        q.append(("sum:" + ax, json.dumps(fr_list(t.sum(ax)))))
+        if exact:
+            q.append(("sum:" + ax, json.dumps(fr_list(t.sum(ax)))))
         q.append(("iter:" + ax, json.dumps([[fr_list(v), str(i), core.canon_md_entry(m)] for v, i, m in t.iter(axis=ax)],
                                            sort_keys=True, ensure_ascii=False)))
         q.append(("nonzero_counts:" + ax, json.dumps([int(x) for x in t.nonzero_counts(ax)])))
     for o in obs:
         for s in samp:
             q.append(("cell:%s:%s" % (o, s), core.frac(t.get_value_by_ids(o, s))))
-    q.append(("sum:whole", core.frac(t.sum())))
+    if exact:
+        q.append(("sum:whole", core.frac(t.sum())))
     q.append(("nonzero", json.dumps(sorted([str(o), str(s)] for o, s in t.nonzero()), ensure_ascii=False)))
     q.append(("exists:absent", str(bool(t.exists("\x00no such id")))))
     return q
@@ -1132,7 +1138,7 @@ def run(ctx):
                                     "equal"), ("interleaving", "random-3"))
 
     # 3. all routes against each other on random specs
-    n_specs = 30 if quick else 400
+    n_specs = 30 if quick else 250
     for k in range(n_specs):
         spec = gen_spec(rng, quick)
         routes = list(ALL_ROUTES)
@@ -1165,7 +1171,7 @@ def run(ctx):
 
     # 4b. histories that change the content (partial subsample, partial filter) against a fresh construction
     #     of the content they reached
-    for k in range(240 if quick else 3000):
+    for k in range(240 if quick else 1500):
         spec = core.gen_spec(rng, max_n=4, max_m=4, classes=("count", "smallcount"))
         run_pair(ctx, pair_case(spec, rng.choice(CHANGING_ROUTES), None, rng.choice(["dense", "csr", "lol_coo_zeros", "csc"]),
                                 gen_steps(rng, rng.choice([0, 0, 1, 2])), "equal", exports=(k % 10 == 0)),
@@ -1173,7 +1179,7 @@ def run(ctx):
 
     # 4d. in-place changes (values along one axis, or two IDs swapped) on twins of equal content, one of which
     #     was read along that axis before the change; the same-axis questions come first afterwards
-    for k in range(110 if quick else 3000):
+    for k in range(110 if quick else 1500):
         spec = gen_spec(rng, quick, nonuniform=False)
         axis = rng.choice(["observation", "sample"])
         op = INPLACE_OPS[k % len(INPLACE_OPS)]
@@ -1192,7 +1198,7 @@ def run(ctx):
                      ("inplace", "op=" + op))
 
     # 4e. metadata dicts that differ only in key insertion order on some IDs: equal tables, equal exports
-    for k in range(50 if quick else 1200):
+    for k in range(50 if quick else 600):
         spec = gen_spec(rng, quick, nonuniform=False)
         if k % 2 == 0 or not reorderable(spec.get("omd")):
             spec["omd"] = core.gen_md(rng, spec["obs"], kind=rng.choice(["mixed", "text"]))
@@ -1208,7 +1214,7 @@ def run(ctx):
 
     # 4c. one extra metadata key on one ID, compared both ways round (smaller table on the left and on the right),
     #     built by construction and by add_metadata
-    for k in range(60 if quick else 1500):
+    for k in range(60 if quick else 800):
         spec = gen_spec(rng, quick)
         kind, other = mutate(rng, spec, only="md_extra_key")
         if kind is None:
@@ -1225,7 +1231,7 @@ def run(ctx):
         ctx.count("single-difference=add_metadata", 2)
 
     # 5. single-difference pairs
-    for k in range(320 if quick else 6000):
+    for k in range(320 if quick else 4000):
         spec = gen_spec(rng, quick)
         kind, other = mutate(rng, spec)
         if kind is None:
@@ -1240,7 +1246,7 @@ def run(ctx):
             run_pair(ctx, pair_case(other, rb, spec, ra, st, "differs"), ("single-difference", "mutation=" + kind))
 
     # 6. kernel level: dataEq vs the real _data_equality, eliminateZeros vs scipy's eliminate_zeros
-    for k in range(900 if quick else 30000):
+    for k in range(900 if quick else 20000):
         run_kernel(ctx, gen_kernel_case(rng), ("kernel",))
 
     # nothing may be left behind
